@@ -253,12 +253,13 @@ def _shift_left(chars, k, cap_out):
 class SymStr(object):
     """bounded string: `chars` (capacity) of char values + length `n` (int or BV)."""
 
-    __slots__ = ("chars", "n", "maxlen")
+    __slots__ = ("chars", "n", "maxlen", "_memo")
 
     def __init__(self, chars, n, maxlen=None):
         self.chars = list(chars)
         self.n = n
         self.maxlen = len(self.chars) if maxlen is None else min(maxlen, len(self.chars))
+        self._memo = None
 
     # ---- construction
     @property
@@ -443,7 +444,16 @@ class SymStr(object):
         """list of booleans: concrete-length p occurs at position i (i = 0..cap)"""
         p = SymStr.lift(p)
         if is_sym(p.n):
-            raise EngineUnsupported("find(symbolic-length needle)")
+            out = []
+            for i in range(self.cap + 1):
+                cs = [z.le(z.add(p.n, i), self.n)]
+                for j in range(p.cap):
+                    if i + j < self.cap:
+                        cs.append(z.Or(z.ge(j, p.n), z.eq_c(self.chars[i + j], p.chars[j])))
+                    else:
+                        cs.append(z.ge(j, p.n))
+                out.append(z.And(cs))
+            return out
         k = p.n
         out = []
         for i in range(self.cap + 1):
@@ -517,6 +527,17 @@ class SymStr(object):
         return a, b
 
     def _strip(self, chars, left, right):
+        key = ("strip", chars if chars is None or isinstance(chars, str) else None, left, right)
+        if key[1] is not None or chars is None:
+            if self._memo is None:
+                self._memo = {}
+            r = self._memo.get(key)
+            if r is None:
+                r = self._memo[key] = self._strip_uncached(chars, left, right)
+            return r
+        return self._strip_uncached(chars, left, right)
+
+    def _strip_uncached(self, chars, left, right):
         if chars is None:
             pred = isws
         else:
@@ -537,11 +558,19 @@ class SymStr(object):
     def rstrip(self, chars=None):
         return self._strip(chars, False, True)
 
+    def _memoized(self, key, fn):
+        if self._memo is None:
+            self._memo = {}
+        r = self._memo.get(key)
+        if r is None:
+            r = self._memo[key] = fn()
+        return r
+
     def upper(self):
-        return mkstr(SymStr([upper_c(c) for c in self.chars], self.n, self.maxlen))
+        return self._memoized("upper", lambda: mkstr(SymStr([upper_c(c) for c in self.chars], self.n, self.maxlen)))
 
     def lower(self):
-        return mkstr(SymStr([lower_c(c) for c in self.chars], self.n, self.maxlen))
+        return self._memoized("lower", lambda: mkstr(SymStr([lower_c(c) for c in self.chars], self.n, self.maxlen)))
 
     def ljust(self, w, fill=" "):
         padn = z.max_i(z.sub(I(w), self.n), 0)
